@@ -78,7 +78,22 @@ type succ struct {
 	Herr string `json:"herr,omitempty"`
 }
 
+// TaskResult is what a generic (non-BFS) task returns.
+type TaskResult struct {
+	Evals    int            `json:"evals"`
+	Distinct []string       `json:"distinct,omitempty"` // keys of distinct non-trivial cases (hashed)
+	Samples  []string       `json:"samples,omitempty"`
+	Viols    []string       `json:"viols,omitempty"`
+	Herr     string         `json:"herr,omitempty"`
+	Counters map[string]int `json:"counters,omitempty"`
+}
+
+var taskHandlers = map[string]func(arg json.RawMessage) TaskResult{}
+
+func RegisterTask(name string, h func(arg json.RawMessage) TaskResult) { taskHandlers[name] = h }
+
 type workResp struct {
+	Task    *TaskResult `json:"task,omitempty"`
 	Succs   []succ `json:"succs"`
 	Herr    string `json:"herr,omitempty"`
 	OpsRun  int    `json:"ops"`
@@ -102,7 +117,7 @@ func expandState(sp Space, path []Op, wantInit bool, noTrace bool) workResp {
 	ops := sp.Ops(w0)
 	parentTxt := ""
 	if noTrace {
-		parentTxt, _ = w0.StateText()
+		parentTxt = w0.TraceText()
 	}
 	if wantInit {
 		txt, _ := w0.StateText()
@@ -150,11 +165,37 @@ func WorkerMain() {
 		if len(line) > 0 {
 			var req struct {
 				workReq
-				Init bool `json:"init"`
+				Init bool            `json:"init"`
+				Task string          `json:"task,omitempty"`
+				Arg  json.RawMessage `json:"arg,omitempty"`
 			}
 			if e := json.Unmarshal(line, &req); e != nil {
 				fmt.Fprintln(os.Stderr, "worker: bad request:", e)
 				os.Exit(3)
+			}
+			if req.Task != "" {
+				h, ok := taskHandlers[req.Task]
+				var tr TaskResult
+				if !ok {
+					tr.Herr = "unknown task " + req.Task
+				} else {
+					func() {
+						defer func() {
+							if r := recover(); r != nil {
+								tr.Herr = fmt.Sprintf("task panicked: %v", r)
+							}
+						}()
+						tr = h(req.Arg)
+					}()
+				}
+				if e := enc.Encode(workResp{Task: &tr}); e != nil {
+					os.Exit(3)
+				}
+				out.Flush()
+				if err != nil {
+					return
+				}
+				continue
 			}
 			if cur == nil || curName != req.Spec.Name {
 				cur = MakeSpace(req.Spec)
@@ -425,8 +466,54 @@ func stepAndCheck(sp Space, w *World, op Op, noTrace bool, parentTxt string) (st
 	}
 	txt, _ := w.StateText()
 	key := HashText(txt)
-	if noTrace && strings.HasPrefix(w.LastRet, "err:") && txt != parentTxt {
+	if noTrace && strings.HasPrefix(w.LastRet, "err:") && w.TraceText() != parentTxt {
+		txt = w.TraceText()
 		return key, violf("rejected request %s (%s) left a trace: state before\n%s\nstate after\n%s", op, w.LastRet, parentTxt, txt)
 	}
 	return key, sp.Check(w)
+}
+
+func (p *workerProc) callTask(name string, arg any) (TaskResult, error) {
+	ab, _ := json.Marshal(arg)
+	req := map[string]any{"task": name, "arg": json.RawMessage(ab), "spec": Spec{}, "path": []Op{}}
+	b, _ := json.Marshal(req)
+	b = append(b, '\n')
+	if _, err := p.in.Write(b); err != nil {
+		return TaskResult{}, err
+	}
+	line, err := p.out.ReadBytes('\n')
+	if err != nil {
+		return TaskResult{}, fmt.Errorf("worker died: %w", err)
+	}
+	var resp workResp
+	if err := json.Unmarshal(line, &resp); err != nil {
+		return TaskResult{}, err
+	}
+	if resp.Task == nil {
+		return TaskResult{}, fmt.Errorf("worker returned no task result")
+	}
+	return *resp.Task, nil
+}
+
+// RunTasks distributes task arguments over the pool and returns results in order.
+func (p *Pool) RunTasks(name string, args []any) ([]TaskResult, error) {
+	results := make([]TaskResult, len(args))
+	errs := make([]error, len(args))
+	var wg sync.WaitGroup
+	for i := range args {
+		wp := <-p.free
+		wg.Add(1)
+		go func(i int, wp *workerProc) {
+			defer wg.Done()
+			results[i], errs[i] = wp.callTask(name, args[i])
+			p.free <- wp
+		}(i, wp)
+	}
+	wg.Wait()
+	for _, e := range errs {
+		if e != nil {
+			return results, e
+		}
+	}
+	return results, nil
 }
